@@ -52,9 +52,13 @@ def decompose(flag, value):
         tmp = not_covered
         while tmp:
             flag_value = 2 ** _high_bit(tmp)
-            if flag_value in flag._value2member_map_:
-                members.append(flag._value2member_map_[flag_value])
+            try:
+                # the member for this bit, made now if need be: which unnamed members _value2member_map_ happens to hold
+                # depends on the values looked up before (they are no longer all created along with the first one)
+                members.append(flag(flag_value))
                 not_covered &= ~flag_value
+            except ValueError:
+                pass
             tmp &= ~flag_value
     if not members and value in flag._value2member_map_:
         members.append(flag._value2member_map_[value])
